@@ -385,7 +385,19 @@ fn clones_case<K: El, V: El>(cfg: &Cfg, rng: &mut Rng, rep: &mut Report, tag: &s
     a.alloc_checks = false;
     a.focus = cfg.focus;
     let mut ga = Gen::new(rng.next(), Profile::Clone, *rng.pick(&[40u64, 200, 1000]), 0, 300);
-    ga = ga.with_script(vec![Dir::Tail(rng.usize(30)), *rng.pick(&[Dir::FillToFull, Dir::FillToFull, Dir::InsertNew(5), Dir::InsertNew(40)]), Dir::InsertNew(rng.usize(5)), Dir::RemoveOld(rng.usize(4))]);
+    // one case in eight: a source that is exactly full, cloned into a destination that was
+    // emptied while mid-resize (its old table empty but still allocated)
+    let exact = rng.chance(1, 8);
+    if exact {
+        ga = ga.with_script(vec![Dir::InsertNew(rng.usize(40)), Dir::FillToFull]);
+    } else {
+        if rng.chance(1, 2) {
+            // sizes at which growth leaves more than R elements behind, then one to three more keys
+            ga = ga.with_script(vec![Dir::Tail(rng.usize(30)), Dir::InsertNew(8 + rng.usize(60)), Dir::FillToFull, Dir::InsertNew(*rng.pick(&[1usize, 1, 1, 2, 3])), Dir::RemoveOld(rng.usize(4))]);
+        } else {
+            ga = ga.with_script(vec![Dir::Tail(rng.usize(30)), *rng.pick(&[Dir::FillToFull, Dir::FillToFull, Dir::InsertNew(5), Dir::InsertNew(40)]), Dir::InsertNew(rng.usize(5)), Dir::RemoveOld(rng.usize(4))]);
+        }
+    }
     let mut ops_a = Vec::new();
     let mut fail: Option<Viol> = None;
     while let Some(op) = ga.next_op(&a) {
@@ -404,23 +416,40 @@ fn clones_case<K: El, V: El>(cfg: &Cfg, rng: &mut Rng, rep: &mut Report, tag: &s
     let dbh = Bh::new(*rng.pick(&[HMode::Good, HMode::Identity, HMode::SameTag]), 10 + rng.below(8));
     let (src_main, src_total) = (a.state().main.len, a.map.len());
     let dcap = *rng.pick(&[usize::MAX, 0, 7, 28, 100, src_main, src_main + 1, src_main.saturating_sub(1), (src_main + src_total) / 2, src_total.saturating_sub(1)]);
-    let fresh_dest = rng.chance(1, 3);
+    let fresh_dest = rng.chance(1, 3) && !exact;
     let mut b: Mon<K, V> = Mon::new(dcap, dbh);
     b.conserve = false;
     b.alloc_checks = false;
     b.focus = cfg.focus;
-    let use_clone_from = rng.chance(2, 3);
+    let use_clone_from = rng.chance(2, 3) || exact;
     let mut ops_b = Vec::new();
     let mut dst_split = false;
     if fail.is_none() && use_clone_from && !fresh_dest {
         let mut gb = Gen::new(rng.next(), Profile::General, 100, 0, 300);
-        gb = gb.with_script(vec![*rng.pick(&[Dir::FillToFull, Dir::InsertNew(3), Dir::InsertNew(0), Dir::InsertNew(60)]), Dir::InsertNew(rng.usize(5)), Dir::RemoveMain(rng.usize(3))]);
+        if exact {
+            gb = gb.with_script(vec![Dir::InsertNew(rng.usize(20)), Dir::FillToFull, Dir::InsertNew(1 + rng.usize(2))]);
+        } else {
+            if rng.chance(1, 2) {
+                gb = gb.with_script(vec![Dir::InsertNew(8 + rng.usize(60)), Dir::FillToFull, Dir::InsertNew(*rng.pick(&[1usize, 1, 1, 2, 3])), Dir::RemoveMain(rng.usize(3))]);
+            } else {
+                gb = gb.with_script(vec![*rng.pick(&[Dir::FillToFull, Dir::InsertNew(3), Dir::InsertNew(0), Dir::InsertNew(60)]), Dir::InsertNew(rng.usize(5)), Dir::RemoveMain(rng.usize(3))]);
+            }
+        }
         while let Some(op) = gb.next_op(&b) {
             let r = b.step(&op);
             ops_b.push(op);
             if let Err(v) = r {
                 fail = Some(v);
                 break;
+            }
+        }
+        if exact && fail.is_none() {
+            // empty it while split: everything retained away, or only the old table's elements
+            let op = if rng.chance(1, 2) { Op::new(Code::Retain).with_list(pred_none()) } else { Op::new(Code::Retain).with_list(pred_keys(&b.model.keys().copied().filter(|k| !matches!(b.locate(*k), Location::Old(_))).collect::<Vec<_>>())) };
+            let r = b.step(&op);
+            ops_b.push(op);
+            if let Err(v) = r {
+                fail = Some(v);
             }
         }
         dst_split = b.state().old.as_ref().map_or(false, |o| o.table.len > 0);
@@ -503,7 +532,28 @@ fn clones_case<K: El, V: El>(cfg: &Cfg, rng: &mut Rng, rep: &mut Report, tag: &s
         std::mem::forget(b);
         return;
     }
+    // the real crate never leaves the product of clone / clone_from mid-resize; an implementation
+    // may, but then the product must take an insertion like any map (the source does)
+    if b.map.verif_state().old.is_some() {
+        let kv = (1u64 << 52) + rng.below(1 << 20);
+        let (kk, v) = (K::mk(kv), V::mk(kv));
+        let bm = &mut b.map;
+        let r = catch(|| {
+            bm.insert(kk, v);
+        });
+        if let Err(p) = r {
+            rep.direct_violation("C11", tag, &format!("the product of clone_from (equal to the source by every observer) cannot take an insertion: {p}"), &body(&ops_a, &ops_b));
+            std::mem::forget(a);
+            std::mem::forget(b);
+            return;
+        }
+        b.map.remove(&K::mk(kv));
+        rep.bump("clone_product_split_probed", 1);
+    }
     rep.bump("clone_pairs", 1);
+    if exact {
+        rep.bump("clone_exact_fit_into_emptied_split_destination", 1);
+    }
     if src_split {
         rep.bump("clone_src_split", 1);
     }
